@@ -157,7 +157,13 @@ def _attach_parent_to_exprs(obj: Class | Function | Attribute, parent: Module | 
 
 
 def _load_module(obj_dict: dict[str, Any]) -> Module:
-    module = Module(name=obj_dict["name"], filepath=Path(obj_dict["filepath"]), docstring=_load_docstring(obj_dict))
+    # Namespace packages have a list of directories, builtin modules have no file path.
+    filepath = obj_dict.get("filepath")
+    if isinstance(filepath, list):
+        filepath = [Path(path) for path in filepath]
+    elif filepath is not None:
+        filepath = Path(filepath)
+    module = Module(name=obj_dict["name"], filepath=filepath, docstring=_load_docstring(obj_dict))
     # YORE: Bump 2: Replace line with `members = obj_dict.get("members", {}).values()`.
     members = obj_dict.get("members", [])
     # YORE: Bump 2: Remove block.
@@ -174,7 +180,7 @@ def _load_module(obj_dict: dict[str, Any]) -> Module:
 def _load_class(obj_dict: dict[str, Any]) -> Class:
     class_ = Class(
         name=obj_dict["name"],
-        lineno=obj_dict["lineno"],
+        lineno=obj_dict.get("lineno"),
         endlineno=obj_dict.get("endlineno"),
         docstring=_load_docstring(obj_dict),
         decorators=_load_decorators(obj_dict),
@@ -200,7 +206,7 @@ def _load_function(obj_dict: dict[str, Any]) -> Function:
         parameters=Parameters(*obj_dict["parameters"]),
         returns=obj_dict["returns"],
         decorators=_load_decorators(obj_dict),
-        lineno=obj_dict["lineno"],
+        lineno=obj_dict.get("lineno"),
         endlineno=obj_dict.get("endlineno"),
         docstring=_load_docstring(obj_dict),
     )
@@ -211,7 +217,7 @@ def _load_function(obj_dict: dict[str, Any]) -> Function:
 def _load_attribute(obj_dict: dict[str, Any]) -> Attribute:
     attribute = Attribute(
         name=obj_dict["name"],
-        lineno=obj_dict["lineno"],
+        lineno=obj_dict.get("lineno"),
         endlineno=obj_dict.get("endlineno"),
         docstring=_load_docstring(obj_dict),
         value=obj_dict.get("value"),
@@ -225,7 +231,7 @@ def _load_alias(obj_dict: dict[str, Any]) -> Alias:
     return Alias(
         name=obj_dict["name"],
         target=obj_dict["target_path"],
-        lineno=obj_dict["lineno"],
+        lineno=obj_dict.get("lineno"),
         endlineno=obj_dict.get("endlineno"),
     )
 
